@@ -14,6 +14,11 @@ func (d gsm7Decoder) Transform(dst, src []byte, atEOF bool) (nDst, nSrc int, err
 	if len(src) == 0 {
 		return
 	}
+	if !atEOF {
+		// septets straddle octets and the filler rule needs the last one: wait for the whole message
+		err = transform.ErrShortSrc
+		return
+	}
 	var buf bytes.Buffer
 	septets := unpackSeptets(src)
 	err = ErrInvalidByte
